@@ -60,6 +60,21 @@ def gen_crop(rng, profile):
         # "default program properties" of the Crop class (documented, changeable with expert knowledge): a few plausible values
         key = rng.choice(["LagAer", "LagAer", "Aer", "GermThr"])
         ov[key] = rng.choice({"LagAer": [2, 5, 8], "Aer": [2, 10, 15], "GermThr": [0.1, 0.4]}[key])
+    if rng.random() < _p(profile, "calibration_param_p", 0.0):
+        # a locally calibrated crop: one or two of the documented crop parameters at another plausible value
+        for key in rng.sample(["GDD_lo", "GDD_up", "CCx", "Zmax", "Kcb", "fage"], rng.choice([1, 2])):
+            if key == "GDD_lo":
+                ov[key] = rng.choice([2, 3, 5])
+            elif key == "GDD_up":
+                ov[key] = rng.choice([10, 12, 14])
+            elif key == "CCx":
+                ov[key] = round(CROP_INFO[name]["CCx"] * rng.choice([0.7, 0.85, 0.95]), 3)
+            elif key == "Zmax":
+                ov[key] = round(max(0.4, CROP_INFO[name]["Zmax"] * rng.choice([0.5, 0.75])), 2)
+            elif key == "Kcb":
+                ov[key] = rng.choice([0.9, 1.0, 1.15])
+            else:
+                ov[key] = rng.choice([0.05, 0.3])
     if "Determinant" in ov and CROP_INFO[name]["CropType"] != 3:
         # determinacy is a property of flowering; leafy and root/tuber crops have no flowering period (Flowering = -999)
         del ov["Determinant"]
